@@ -409,7 +409,7 @@ func (a *appGenerator) makeCodegenApp() (GenApp, error) {
 		genOps = append(genOps, op)
 	}
 	sort.Sort(genOps)
-	if err := checkDistinctOperationNames(genOps); err != nil {
+	if err := checkDistinctOperationNames(genOps, a.GenOpts != nil && a.GenOpts.IncludeCLi); err != nil {
 		return GenApp{}, err
 	}
 
@@ -654,10 +654,16 @@ func checkDistinctModelNames(models GenDefinitions, lang *LanguageOpts) error {
 }
 
 // checkDistinctOperationNames makes sure that two operations in the same package are not rendered with the same go name.
-func checkDistinctOperationNames(ops GenOperations) error {
+//
+// The cli renders the commands of all operations as files of one single package: with singlePackage set,
+// names must be distinct across the packages of the tags too, lest one command file overwrite the other.
+func checkDistinctOperationNames(ops GenOperations, singlePackage bool) error {
 	names := make(map[string]string, len(ops))
 	for _, op := range ops {
 		key := op.PackageAlias + "." + pascalize(op.Name)
+		if singlePackage {
+			key = pascalize(op.Name)
+		}
 		if prev, ok := names[key]; ok && prev != op.Name {
 			return fmt.Errorf("operations %q and %q are both rendered as go name %s: please rename one of them", prev, op.Name, pascalize(op.Name))
 		}
